@@ -86,7 +86,7 @@ theorem ldx_sendRequest_multi_two (w : Cli.World Ext) (sess : Nat) (cidb : Bytes
   have hmap : ([qa, qb] : List ReadReq).map (fun q => Cl.readMsg q.path q.elements) =
       [Cl.readMsg qa.path qa.elements, Cl.readMsg qb.path qb.elements] := rfl
   rw [← hmap] at hsend
-  rw [ldr2_sendRequest_multi w w2 rs seq _ _ hsend, hdata, hemb]
+  rw [ldr2_sendRequest_multi w w2 rs seq _ _ hsend (ldr_tagResp_commandStatus _ _ _ _), hdata, hemb]
   rfl
 
 /-- `read(a, b)` of two one-element requests with plain parses (`ldr2_parsedAt`) on a healthy connected driver that is
